@@ -12,9 +12,20 @@ RULE = (
     'ancestor of e2; on a serial bus no event starts while a handler of another event on that bus runs un-suspended. '
     'Non-trivial = some bus had >= 2 accepted-but-not-started events at once; distinct by canonical JSON.'
 )
-ASSUMPTIONS = ['virtual time; harness-side lineage (who dispatched what) is used, not event_children', 'no timeouts / stop / capacity overflow']
+ASSUMPTIONS = ['virtual time; harness-side lineage (who dispatched what) is used, not event_children', 'a handler cut off by a timeout counts as running until its coroutine has finished unwinding', 'no stop / capacity overflow']
 
-P = Profile(probe=True, actor_ops=['disp', 'burst', 'burst', 'dispany', 'sleep', 'await', 'yield'], max_actor_ops=5, raises=0.05, maxdepth=[2], wild=0.2, fwd=0.4)
+from hypothesis import strategies as _st
+
+
+@_st.composite
+def _timeouts(draw):
+    # a quarter of the scenarios: handlers are cut off by event timeouts and need time to unwind; the bus must not move on meanwhile
+    if draw(_st.integers(0, 3)) != 0:
+        return {}
+    return {str(t): draw(_st.sampled_from([0.13, 0.27, 0.41])) for t in range(4) if draw(_st.booleans())}
+
+
+P = Profile(timeouts=_timeouts(), cleanup=0.3, probe=True, actor_ops=['disp', 'burst', 'burst', 'dispany', 'sleep', 'await', 'yield'], max_actor_ops=5, raises=0.05, maxdepth=[2], wild=0.2, fwd=0.4)
 
 
 def budget(tier):
